@@ -1302,6 +1302,38 @@ def split_top(s):
 
 # ------------------------------------------------------------------ whole program
 
+def contexts_of(P, f, limit=8):
+    """Call-site contexts of a function whose parameters are constrained by its callers (None if it is an entry, a closure, referenced as
+    a value, has more than `limit` call sites, or no call site was seen): the concrete executions of f are the union of its call sites, so
+    a fact that holds under the parameter values of every single call site holds - even where the *join* of those values has lost the
+    correlation between parameters (`opcode` in 21..25 with `first_opcode` 21, or 54..58 with 54)."""
+    if f.param_in is None or f.is_closure:
+        return None
+    sv = getattr(P, "site_vals", {}).get(f.key)
+    if not sv:
+        return None
+    out = []
+    for v in (sv.values() if isinstance(sv, dict) else sv):
+        if v not in out:
+            out.append(v)
+    if len(out) > limit:
+        return None
+    return out
+
+
+def states_in_context(f, vec):
+    """in_states of f analysed with the parameter values of one call site (f itself is left as it was)."""
+    saved = (f.param_in, f.in_states, f.ret, getattr(f, "ret_aff", None))
+    try:
+        f.param_in = list(vec)
+        f.analyse()
+        return f.in_states
+    finally:
+        f.param_in, f.in_states, f.ret = saved[0], saved[1], saved[2]
+        if saved[3] is not None:
+            f.ret_aff = saved[3]
+
+
 class Program:
     def __init__(self, mono):
         self.mono = mono
@@ -1314,6 +1346,7 @@ class Program:
         self.param_hints = {}    # closure key -> {place key: Value} facts about parameters supplied by std (Enumerate index)
         self.collect_calls = False
         self.call_sites = {}     # callee key -> [(caller Fn, bb, argv)]
+        self.site_vals = {}      # callee key -> [[Value per param] per call site]   (last round)
 
     def note_call(self, caller, bi, callee, argv, st):
         if not self.collect_calls:
@@ -1333,6 +1366,8 @@ class Program:
             v = vals[i] if i < len(vals) else TOP
             acc[i] = join(acc[i], v) if acc[i] is not None else v
         self.call_sites.setdefault(callee.key, []).append((caller.key, bi))
+        # per call site: the last visit of the block carries the converged values
+        self.site_vals.setdefault(callee.key, {})[(caller.key, bi)] = [(vals[i] if i < len(vals) else TOP) for i in range(callee.argc)]
 
     def order(self):
         """callees before callers (reverse topological order of the key-level call graph; cycles in any order)."""
@@ -1397,6 +1432,7 @@ class Program:
         for rnd in range(rounds):
             self.param_acc = {}
             self.call_sites = {}
+            self.site_vals = {}
             self.collect_calls = True
             for k in order:
                 f = self.fns[k]
